@@ -68,3 +68,13 @@ BUILT['C05'] = {
     'level': 'Runtime monitoring: generated streams full of token look-alikes and numeric edge values are written by the real library in all six formats; each output is decoded by an independent parser (python json, PyYAML restricted to the YAML 1.2 core schema, tomllib) and read back by bkl itself, and both must give the same documents; every combination of -f, -o extension, real/virtual input extension and the library defaults must write exactly Output(f) for the format the rule selects. Holds for the executions produced only.',
     'note': 'Trusted: independent decoders, own input serializers. YAML-1.1-only readings are counted, not judged. Three upstream yaml.v3 emitter defects ("<<" key, "<<" value, leading newline) are recorded known findings and excluded from the generated alphabet.',
 }
+BUILT['C03'] = {
+    'technique': 'reference chain-resolution model + hook load-event log + metamorphic variants (rename, $parent re-expression, re-serialization under other extensions) at the process boundary',
+    'level': 'Runtime monitoring: generated directory layouts (filename chains, $parent string/list/wildcard/false/null in any document, symlinks, several inputs, -P, missing layers) run through the real bkl binary and MergeFileLayers; the output must equal the base-first fold of the layers an independent resolution model selects, the files opened (verifEvent load) must be the model\'s sequence, consistent renaming / expressing filename links by $parent / re-serializing files under other extensions must leave the output bytes unchanged, and a missing layer must fail with empty stdout. Holds for the layouts produced only.',
+    'note': 'Trusted: chain model (harness/bv/props/c03.py), stream/merge model, own serializers, the load event hook in file.go. One file per layer name; no diamonds.',
+}
+BUILT['C04'] = {
+    'technique': 'metamorphic monitor over all 3^n format assignments (+ YAML anchor/alias/merge-key and TOML style variants) with a typed reference-model comparison (in-process worker from files, CLI sample)',
+    'level': 'Runtime monitoring: each generated layer set (numbers chosen so that $match/$delete patterns, $repeat counts and useless-override checks depend on numeric equality) is written in every JSON/YAML/TOML assignment by the harness\'s own serializers and evaluated by the real library; all assignments must agree on success and give byte-identical json/yaml/toml output, and the typed result must equal the reference model on the logical trees (integers exact, doubles bit-identical). Holds for the layer sets produced only.',
+    'note': 'Trusted: own serializers (validated against independent decoders), stream/merge model, worker value encoding (int vs float vs other Go types).',
+}
